@@ -177,6 +177,7 @@ static inline bool RBF(has_o)(RB_C o, uint64_t k) { return RBF(has)(&o, k); }
 static inline uint64_t RBF(val_o)(RB_C o, uint64_t k) { return RBF(val)(&o, k); }
 static inline uint64_t RBF(size_o)(RB_C o) { return RBF(size)(&o); }
 static inline uint64_t RBF(cap_o)(RB_C o) { return RBF(cap)(&o); }
+static inline uint64_t RBF(acq_o)(RB_C o) { return o.m_lock.m_lock.acq; }
 static inline uint64_t RBF(ord_o)(RB_C o, uint64_t k) { return RBF(ord)(&o, k); }
 static inline uint64_t RBF(key_of_slot_o)(RB_C o, uint64_t idx) { return RBF(key_of_slot)(&o, idx); }
 static inline uint64_t RBF(entry_key_o)(RB_C o, cstl_iter kp) { return RBF(entry_key)(&o, kp); }
